@@ -69,6 +69,18 @@ Lemma read_file_lazy_sw_false : forall prs valid text,
   read_file_lazy_sw prs false valid text = read_file_lazy prs valid text.
 Proof. intros. unfold read_file_lazy_sw, read_file_lazy. rewrite read_header_text_sw_false. reflexivity. Qed.
 
+Lemma header_prefix_sw_false : forall lines first, header_prefix_sw false first lines = header_prefix lines.
+Proof.
+  induction lines as [|l rest IH]; intros first; [reflexivity|].
+  destruct l as [|b t]; [reflexivity|].
+  cbn [header_prefix_sw header_prefix andb].
+  destruct b as [|p]; [reflexivity|].
+  do 6 (destruct p as [p|p|]; try reflexivity). now rewrite IH.
+Qed.
+
+Lemma read_header_chk_sw_false : forall lines, read_header_chk_sw false lines = read_header_chk lines.
+Proof. intros. unfold read_header_chk_sw, read_header_chk. now rewrite header_prefix_sw_false. Qed.
+
 (* as the switch stands today (true since ae9f807): the readers of the crate are the stopping ones *)
 Lemma read_file_cur_is_stop : forall prs valid text,
   read_file_eager_cur prs valid text = read_file_eager_sw prs true valid text /\
